@@ -1,6 +1,8 @@
 import Texel.Model.SplitF
+import Texel.Proofs.Area
 import Mathlib.Data.List.Chain
 import Mathlib.Data.List.Nodup
+import Mathlib.Algebra.BigOperators.Group.List.Basic
 /-! The stack invariant of `splitRing`: the partial rings on the stack form one path without repetition (each starts where the one before
 ends), every flagged vertex on it is the start of a partial ring, and the path starts at the ring's first vertex. Consequences: the `error`
 branches of `splitRingF` are unreachable and no returned ring visits a vertex twice — provided an unflagged vertex occurs only once in
@@ -224,6 +226,149 @@ theorem nodup_spath_suffix (pre : List (List P)) (s0 : List P) (srest : List (Li
       intro hx
       exact h3 x h x hx rfl
 
+/-! ### edge sums: the partial rings on the stack carry every edge walked so far that is not yet in a complete ring -/
+
+/-- the shoelace sum around a closed ring (twice its signed area) -/
+def closedSum (r : List P) : Int := match r with | [] => 0 | a :: _ => chainSum cross0 (r ++ [a])
+/-- the edge from the last vertex of `l` to `v` -/
+def edgeTo (l : List P) (v : P) : Int := match l.getLast? with | some x => cross0 x v | none => 0
+def partsSum (ps : List (List P)) : Int := (ps.map (chainSum cross0)).sum
+
+theorem chainSum_snoc' (l : List P) (v : P) : chainSum cross0 (l ++ [v]) = chainSum cross0 l + edgeTo l v := by
+  cases l with
+  | nil => simp [chainSum, edgeTo]
+  | cons x t =>
+    rw [chainSum_snoc cross0 x t v]
+    unfold edgeTo
+    rw [List.getLast?_eq_some_getLast (List.cons_ne_nil x t)]
+
+theorem edgeTo_congr (a b : List P) (v : P) (h : a.getLast? = b.getLast?) : edgeTo a v = edgeTo b v := by unfold edgeTo; rw [h]
+
+theorem chainSum_append_tail : ∀ (a b : List P), a ≠ [] → b ≠ [] → a.getLast? = b.head? →
+    chainSum cross0 (a ++ b.tail) = chainSum cross0 a + chainSum cross0 b
+  | [], _, h, _, _ => absurd rfl h
+  | [x], b, _, hb, hl => by
+    cases b with
+    | nil => exact absurd rfl hb
+    | cons y t =>
+      simp only [List.getLast?_singleton, List.head?_cons, Option.some.injEq] at hl
+      subst hl
+      simp [chainSum]
+  | x :: y :: t, b, _, hb, hl => by
+    have ih := chainSum_append_tail (y :: t) b (by simp) hb (by rw [List.getLast?_cons_cons] at hl; exact hl)
+    simp only [List.cons_append, chainSum] at ih ⊢
+    rw [ih]; ring
+
+/-- oldest first: every partial ring non-empty, each ending where the next one starts -/
+def FL : List (List P) → Prop
+  | [] => True
+  | [p] => p ≠ []
+  | p :: q :: r => p ≠ [] ∧ p.getLast? = q.head? ∧ FL (q :: r)
+
+theorem fl_tail (p : List P) (rest : List (List P)) (h : FL (p :: rest)) : FL rest := by
+  cases rest with
+  | nil => trivial
+  | cons q r => exact h.2.2
+
+theorem fl_head_ne (p : List P) (rest : List (List P)) (h : FL (p :: rest)) : p ≠ [] := by
+  cases rest with
+  | nil => exact h
+  | cons q r => exact h.1
+
+theorem chainSum_spath_aux : ∀ (rest : List (List P)) (p : List P), FL (p :: rest) →
+    chainSum cross0 (p ++ rest.flatMap List.tail) = chainSum cross0 p + partsSum rest
+  | [], p, _ => by simp [partsSum]
+  | q :: r, p, h => by
+    obtain ⟨hp, hl, hrest⟩ := h
+    have hq : q ≠ [] := fl_head_ne q r hrest
+    have hm : FL ((p ++ q.tail) :: r) := by
+      cases r with
+      | nil => simp [FL, hp]
+      | cons s r' =>
+        refine ⟨by simp [hp], ?_, hrest.2.2⟩
+        by_cases ht : q.tail = []
+        · rw [ht, List.append_nil, hl]
+          cases q with
+          | nil => exact absurd rfl hq
+          | cons a t => simp only [List.tail_cons] at ht; subst ht; simpa using hrest.2.1
+        · rw [List.getLast?_append_of_ne_nil _ ht]
+          cases q with
+          | nil => exact absurd rfl hq
+          | cons a t =>
+            simp only [List.tail_cons] at ht ⊢
+            have := hrest.2.1
+            cases t with
+            | nil => exact absurd rfl ht
+            | cons b t' => rw [List.getLast?_cons_cons] at this; exact this
+    have ih := chainSum_spath_aux r (p ++ q.tail) hm
+    simp only [List.flatMap_cons, ← List.append_assoc]
+    rw [ih, chainSum_append_tail p q hp hq hl]
+    simp only [partsSum, List.map_cons, List.sum_cons]
+    ring
+
+theorem chainSum_spath (ps : List (List P)) (h : FL ps) : chainSum cross0 (spath ps) = partsSum ps := by
+  cases ps with
+  | nil => simp [spath, chainSum, partsSum]
+  | cons p rest =>
+    simp only [spath]
+    rw [chainSum_spath_aux rest p h]
+    simp [partsSum]
+
+/-- the path ends where its last partial ring ends -/
+theorem spath_getLast : ∀ (ps : List (List P)) (pr : List P), FL (ps ++ [pr]) → (spath (ps ++ [pr])).getLast? = pr.getLast?
+  | [], pr, _ => by simp [spath]
+  | p :: rest, pr, h => by
+    -- merge the first two and recurse
+    cases rest with
+    | nil =>
+      obtain ⟨hp, hl, hpr⟩ := h
+      simp only [List.cons_append, List.nil_append, spath, List.flatMap_cons, List.flatMap_nil, List.append_nil]
+      by_cases ht : pr.tail = []
+      · rw [ht, List.append_nil, hl]
+        cases pr with
+        | nil => exact absurd rfl hpr
+        | cons a t => simp only [List.tail_cons] at ht; subst ht; simp
+      · rw [List.getLast?_append_of_ne_nil _ ht]
+        cases pr with
+        | nil => exact absurd rfl hpr
+        | cons a t =>
+          cases t with
+          | nil => exact absurd rfl ht
+          | cons b t' => simp [List.getLast?_cons_cons]
+    | cons q r =>
+      obtain ⟨hp, hl, hrest⟩ := h
+      have hq : q ≠ [] := fl_head_ne q _ hrest
+      have hmerge : spath (p :: q :: r ++ [pr]) = spath ((p ++ q.tail) :: r ++ [pr]) := by
+        simp [spath, List.append_assoc]
+      have hm : FL (((p ++ q.tail) :: r) ++ [pr]) := by
+        cases hr : r ++ [pr] with
+        | nil => simp at hr
+        | cons s r' =>
+          have hrest' : FL (q :: s :: r') := by simpa [hr] using hrest
+          simp only [List.cons_append, hr]
+          refine ⟨by simp [hp], ?_, hrest'.2.2⟩
+          by_cases ht : q.tail = []
+          · rw [ht, List.append_nil, hl]
+            cases q with
+            | nil => exact absurd rfl hq
+            | cons a t => simp only [List.tail_cons] at ht; subst ht; simpa using hrest'.2.1
+          · rw [List.getLast?_append_of_ne_nil _ ht]
+            cases q with
+            | nil => exact absurd rfl hq
+            | cons a t =>
+              simp only [List.tail_cons] at ht ⊢
+              have := hrest'.2.1
+              cases t with
+              | nil => exact absurd rfl ht
+              | cons b t' => rw [List.getLast?_cons_cons] at this; exact this
+      simp only [List.cons_append] at hmerge ⊢
+      rw [hmerge]
+      exact spath_getLast ((p ++ q.tail) :: r) pr hm
+termination_by ps _ _ => ps.length
+
+theorem partsSum_append (a b : List (List P)) : partsSum (a ++ b) = partsSum a + partsSum b := by
+  simp [partsSum, List.map_append, List.sum_append]
+
 /-! ### the invariant -/
 
 /-- `init` are the partial rings below the current one `pr` (oldest first) -/
@@ -239,6 +384,17 @@ structure SI (isHit : P → Bool) (v0 : P) (seen : List P) (st : SplitState) (in
   heads : ∀ v ∈ spath (init.map (·.2) ++ [pr]), isHit v = true → (∃ e ∈ init, e.2.head? = some v) ∨ pr.head? = some v
   seen_sub : ∀ v ∈ spath (init.map (·.2) ++ [pr]), v ∈ seen
   complete_nodup : ∀ e ∈ st.complete, e.2.Nodup
+  last_eq : pr.getLast? = seen.getLast?
+  area : (st.complete.map (fun e => closedSum e.2)).sum + partsSum (init.map (·.2) ++ [pr]) = chainSum cross0 seen
+  ckeys : (st.complete.map (·.1)).Nodup ∧ ∀ e ∈ st.complete, e.1 ≤ st.idx ∧ (∀ x ∈ init, x.1 ≠ e.1) ∧ e.1 ≠ st.idx
+
+theorem fl_of_backLinked : ∀ (rev : StackL) (q : List P) (rest : List (List P)), BackLinked rev q.head? → FL (q :: rest) →
+    FL (rev.reverse.map (·.2) ++ q :: rest)
+  | [], q, rest, _, h => by simpa using h
+  | (k, part) :: rev', q, rest, hl, h => by
+    obtain ⟨hne, _, hlast, hrest⟩ := hl
+    have := fl_of_backLinked rev' part (q :: rest) hrest ⟨hne, hlast, h⟩
+    simpa [List.append_assoc] using this
 
 theorem keys_ne_of_lt (init : StackL) (k : Nat) (h : ∀ e ∈ init, e.1 < k) : ∀ e ∈ init, e.1 ≠ k := fun e he => Nat.ne_of_lt (h e he)
 
@@ -286,6 +442,15 @@ theorem step_unflagged (isHit : P → Bool) (v0 : P) (seen : List P) (st : Split
       · exact List.mem_append_left _ (inv.seen_sub _ h)
       · exact List.mem_append_right _ h
     · exact inv.complete_nodup
+    · simp [List.getLast?_append]
+    · have h1 : partsSum (init.map (·.2) ++ [pr ++ [v]]) = partsSum (init.map (·.2) ++ [pr]) + edgeTo pr v := by
+        rw [partsSum_append, partsSum_append]
+        simp only [partsSum, List.map_cons, List.map_nil, List.sum_cons, List.sum_nil, Int.add_zero]
+        rw [chainSum_snoc']; ring
+      rw [h1, chainSum_snoc', edgeTo_congr pr seen v inv.last_eq, ← inv.area]
+      simp only
+      ring
+    · exact inv.ckeys
 
 /-! ### closing the current partial ring -/
 
@@ -416,6 +581,30 @@ theorem mem_spath_prefix (pre rest : List (List P)) (x : P) (hx : x ∈ spath pr
   | nil => simp [spath] at hx
   | cons a t => rw [spath_append (a :: t) rest (by simp)]; exact List.mem_append_left _ hx
 
+theorem backLinked_prefix : ∀ (a b : List (Nat × List P)) (h : Option P), BackLinked (a ++ b) h → BackLinked a h
+  | [], _, _, _ => trivial
+  | (k, p) :: a', b, h, hl => by
+    obtain ⟨h1, h2, h3, h4⟩ := hl
+    exact ⟨h1, h2, h3, backLinked_prefix a' b _ h4⟩
+
+theorem partsSum_snoc_last (ps : List (List P)) (pr : List P) (v : P) :
+    partsSum (ps ++ [pr ++ [v]]) = partsSum (ps ++ [pr]) + edgeTo pr v := by
+  rw [partsSum_append, partsSum_append]
+  simp only [partsSum, List.map_cons, List.map_nil, List.sum_cons, List.sum_nil, Int.add_zero]
+  rw [chainSum_snoc']; ring
+
+theorem partsSum_snoc_single (ps : List (List P)) (v : P) : partsSum (ps ++ [[v]]) = partsSum ps := by
+  rw [partsSum_append]; simp [partsSum, chainSum]
+
+theorem closedSum_of_head (pr : List P) (v : P) (h : pr.head? = some v) : closedSum pr = chainSum cross0 pr + edgeTo pr v := by
+  cases pr with
+  | nil => cases h
+  | cons a t =>
+    simp only [List.head?_cons, Option.some.injEq] at h; subst h
+    unfold closedSum
+    simp only
+    rw [chainSum_snoc']
+
 /-- case A: the current partial ring closes on itself -/
 theorem si_after_close (isHit : P → Bool) (v0 : P) (seen : List P) (st : SplitState) (init : StackL) (pr : List P)
     (inv : SI isHit v0 seen st init pr) (v : P) (hc : pr.head? = some v) :
@@ -465,6 +654,26 @@ theorem si_after_close (isHit : P → Bool) (v0 : P) (seen : List P) (st : Split
           obtain ⟨x, hx1, hx2⟩ := backLinked_last init _ inv.links hi inv.init_len
           rw [hx1]; simpa using hx2
       simpa [spath] using this
+  · simp [List.getLast?_append]
+  · simp only [List.map_append, List.map_cons, List.map_nil, List.sum_append, List.sum_cons, List.sum_nil, Int.add_zero]
+    rw [partsSum_snoc_single, closedSum_of_head pr v hc, chainSum_snoc', edgeTo_congr pr seen v inv.last_eq, ← inv.area, partsSum_append]
+    simp only [partsSum, List.map_cons, List.map_nil, List.sum_cons, List.sum_nil, Int.add_zero]
+    ring
+  · obtain ⟨hnd, hall⟩ := inv.ckeys
+    constructor
+    · simp only [List.map_append, List.map_cons, List.map_nil]
+      apply List.nodup_append.2
+      refine ⟨hnd, by simp, ?_⟩
+      intro a ha b hb
+      simp only [List.mem_singleton] at hb; subst hb
+      obtain ⟨e, he, rfl⟩ := List.mem_map.1 ha
+      exact (hall e he).2.2
+    · intro e he
+      rcases List.mem_append.1 he with h | h
+      · obtain ⟨h1, h2, h3⟩ := hall e h
+        exact ⟨by simp only; omega, h2, by simp only; omega⟩
+      · simp only [List.mem_singleton] at h; subst h
+        exact ⟨by simp, fun x hx => Nat.ne_of_lt (inv.keys_lt x hx), by simp⟩
 
 /-- case B1: the flagged vertex has not been seen on the stack: the current partial ring stays, a new one starts -/
 theorem si_after_push (isHit : P → Bool) (v0 : P) (seen : List P) (st : SplitState) (init : StackL) (pr : List P)
@@ -525,6 +734,19 @@ theorem si_after_push (isHit : P → Bool) (v0 : P) (seen : List P) (st : SplitS
     · exact List.mem_append_left _ (inv.seen_sub x h)
     · exact List.mem_append_right _ h
   · exact inv.complete_nodup
+  · simp [List.getLast?_append]
+  · rw [hmap, partsSum_snoc_single, partsSum_snoc_last, chainSum_snoc', edgeTo_congr pr seen v inv.last_eq, ← inv.area]
+    simp only
+    ring
+  · obtain ⟨hnd, hall⟩ := inv.ckeys
+    refine ⟨hnd, ?_⟩
+    intro e he
+    obtain ⟨h1, h2, h3⟩ := hall e he
+    refine ⟨by simp only; omega, ?_, by simp only; omega⟩
+    intro x hx
+    rcases List.mem_append.1 hx with h | h
+    · exact h2 x h
+    · simp only [List.mem_singleton] at h; subst h; exact fun hh => h3 hh.symm
 
 /-- walking back from the current partial ring over `walked` (newest first) down to `part`: the first vertex of each of them, and of the
 current one (`h`), is the last vertex of the ring before it, hence in the tail region of the path of `part :: walked.reverse` -/
@@ -654,6 +876,71 @@ theorem si_after_merge (isHit : P → Bool) (v0 : P) (seen : List P) (st : Split
           obtain ⟨x, hx1, hx2⟩ := backLinked_last pre _ hpre_links hi hprelen
           rw [hx1]; simpa using hx2)
       simpa using this
+  · simp [List.getLast?_append]
+  · -- the ring that is completed carries exactly the edges of the partial rings it is made of, plus the closing edge
+    have hfl : FL (part :: post.map (·.2) ++ [pr ++ [v]]) := by
+      have hbl : BackLinked (post.reverse ++ [(k, part)]) (pr ++ [v]).head? := by
+        rw [head?_append_of_ne_nil pr _ inv.pr_ne]
+        have : post.reverse ++ (k, part) :: pre.reverse = (post.reverse ++ [(k, part)]) ++ pre.reverse := by simp
+        rw [this] at hlinks
+        exact backLinked_prefix _ _ _ hlinks
+      have := fl_of_backLinked (post.reverse ++ [(k, part)]) (pr ++ [v]) [] hbl (by simp [FL])
+      simpa using this
+    have hring : closedSum (spath (part :: post.map (·.2) ++ [pr])) = partsSum (part :: post.map (·.2) ++ [pr]) + edgeTo pr v := by
+      have hhead : (spath (part :: post.map (·.2) ++ [pr])).head? = some v := by
+        cases part with
+        | nil => exact absurd rfl hpart_ne
+        | cons a t => simp only [List.head?_cons, Option.some.injEq] at hp; subst hp; simp [spath]
+      rw [closedSum_of_head _ v hhead]
+      have h1 := spath_snoc_last (part :: post.map (·.2)) pr v inv.pr_ne
+      have h2 := chainSum_spath _ hfl
+      simp only [List.cons_append] at h1 h2
+      rw [h1, chainSum_snoc'] at h2
+      have h3 := partsSum_snoc_last (part :: post.map (·.2)) pr v
+      simp only [List.cons_append] at h3
+      -- the last vertex of the ring is the last vertex of `pr`
+      have hlast : (spath (part :: (post.map (·.2) ++ [pr]))).getLast? = pr.getLast? := by
+        have hfl' : FL (part :: post.map (·.2) ++ [pr]) := by
+          have hbl : BackLinked (post.reverse ++ [(k, part)]) pr.head? := by
+            have : post.reverse ++ (k, part) :: pre.reverse = (post.reverse ++ [(k, part)]) ++ pre.reverse := by simp
+            rw [this] at hlinks
+            exact backLinked_prefix _ _ _ hlinks
+          have := fl_of_backLinked (post.reverse ++ [(k, part)]) pr [] hbl (by simp [FL, inv.pr_ne])
+          simpa using this
+        have := spath_getLast (part :: post.map (·.2)) pr (by simpa using hfl')
+        simpa using this
+      simp only [List.cons_append] at h2 h3 hlast ⊢
+      rw [edgeTo_congr _ pr v hlast] at h2 ⊢
+      omega
+    have harea := inv.area
+    rw [hmap, partsSum_append] at harea
+    simp only [List.map_append, List.map_cons, List.map_nil, List.sum_append, List.sum_cons, List.sum_nil, Int.add_zero]
+    rw [partsSum_snoc_single, hring, chainSum_snoc', edgeTo_congr pr seen v inv.last_eq, ← harea]
+    ring
+  · obtain ⟨hnd', hall⟩ := inv.ckeys
+    have hk_init : (k, part) ∈ init := by rw [hinit]; simp
+    constructor
+    · simp only [List.map_append, List.map_cons, List.map_nil]
+      apply List.nodup_append.2
+      refine ⟨hnd', by simp, ?_⟩
+      intro a ha b hb
+      simp only [List.mem_singleton] at hb
+      rw [hb]
+      obtain ⟨e, he, rfl⟩ := List.mem_map.1 ha
+      exact fun hh => (hall e he).2.1 (k, part) hk_init hh.symm
+    · intro e he
+      rcases List.mem_append.1 he with h | h
+      · obtain ⟨h1, h2, h3⟩ := hall e h
+        exact ⟨by simp only; omega, fun x hx => h2 x (by rw [hinit]; exact List.mem_append_left _ hx), by simp only; omega⟩
+      · simp only [List.mem_singleton] at h; subst h
+        have hklt := inv.keys_lt (k, part) hk_init
+        refine ⟨by simp only at hklt ⊢; omega, ?_, by simp only at hklt ⊢; omega⟩
+        intro x hx
+        have hs := inv.keys_sorted
+        rw [hinit] at hs
+        have := (List.pairwise_append.1 hs).2.2 x hx (k, part) List.mem_cons_self
+        simp only at this ⊢
+        omega
 
 /-! ### one step, the closing step, the loop -/
 
@@ -736,7 +1023,8 @@ theorem v0_not_in_tails (f : List P) (rest : List (List P)) (v0 : P) (hf : f.hea
 /-- the closing vertex (the ring's first vertex again): everything left on the stack closes into one last ring -/
 theorem step_close (isHit : P → Bool) (v0 : P) (seen : List P) (st : SplitState) (init : StackL) (pr : List P)
     (inv : SI isHit v0 seen st init pr) (vi : Nat) :
-    ∃ st', splitStep isHit st vi v0 true = .ok st' ∧ ∀ e ∈ st'.complete, e.2.Nodup := by
+    ∃ st', splitStep isHit st vi v0 true = .ok st' ∧ (∀ e ∈ st'.complete, e.2.Nodup) ∧
+      (st'.complete.map (fun e => closedSum e.2)).sum = chainSum cross0 (seen ++ [v0]) ∧ (st'.complete.map (·.1)).Nodup := by
   have hk := keys_ne_of_lt init st.idx inv.keys_lt
   have hstack1 : stack1Of isHit st vi v0 = init ++ [(st.idx, pr ++ [v0])] := by
     unfold stack1Of
@@ -773,7 +1061,10 @@ theorem step_close (isHit : P → Bool) (v0 : P) (seen : List P) (st : SplitStat
       exact hv0 (by simp only [List.flatMap_append, List.mem_append]; exact Or.inl hx2)
     subst hinit
     simp only [Bool.not_true, Bool.false_eq_true, if_false, List.isEmpty_nil, Bool.not_true]
-    exact ⟨_, rfl, (si_after_close isHit v0 seen st [] pr inv v0 hc).complete_nodup⟩
+    have hsi := si_after_close isHit v0 seen st [] pr inv v0 hc
+    refine ⟨_, rfl, hsi.complete_nodup, ?_, hsi.ckeys.1⟩
+    have := hsi.area
+    simpa [partsSum, chainSum] using this
   · exfalso
     have h0 := inv.head0
     cases hi : init with
@@ -796,7 +1087,10 @@ theorem step_close (isHit : P → Bool) (v0 : P) (seen : List P) (st : SplitStat
       exact Or.inl (Or.inl hx2)
     subst hpre
     simp only [Bool.not_true, Bool.false_eq_true, if_false, List.isEmpty_nil]
-    exact ⟨_, rfl, (si_after_merge isHit v0 seen st init pr inv v0 [] k part post hinit hp).complete_nodup⟩
+    have hsi := si_after_merge isHit v0 seen st init pr inv v0 [] k part post hinit hp
+    refine ⟨_, rfl, hsi.complete_nodup, ?_, hsi.ckeys.1⟩
+    have := hsi.area
+    simpa [partsSum, chainSum] using this
 
 /-- unflagged vertices occur only once: each one is new when it arrives -/
 def UnflaggedNew (isHit : P → Bool) (seen vs : List P) : Prop :=
@@ -804,12 +1098,13 @@ def UnflaggedNew (isHit : P → Bool) (seen vs : List P) : Prop :=
 
 theorem loop_inv (isHit : P → Bool) (v0 : P) : ∀ (vs : List P) (vi : Nat) (seen : List P) (st : SplitState) (init : StackL) (pr : List P),
     vi ≠ 0 → SI isHit v0 seen st init pr → UnflaggedNew isHit seen vs →
-    ∃ st', splitLoop isHit (vs ++ [v0]) vi st = .ok st' ∧ ∀ e ∈ st'.complete, e.2.Nodup := by
+    ∃ st', splitLoop isHit (vs ++ [v0]) vi st = .ok st' ∧ (∀ e ∈ st'.complete, e.2.Nodup) ∧
+      (st'.complete.map (fun e => closedSum e.2)).sum = chainSum cross0 (seen ++ vs ++ [v0]) ∧ (st'.complete.map (·.1)).Nodup := by
   intro vs
   induction vs with
   | nil =>
     intro vi seen st init pr _ inv _
-    simp only [List.nil_append, splitLoop]
+    simp only [List.nil_append, splitLoop, List.append_nil]
     exact step_close isHit v0 seen st init pr inv vi
   | cons v r ih =>
     intro vi seen st init pr hvi inv hnew
@@ -830,13 +1125,15 @@ theorem loop_inv (isHit : P → Bool) (v0 : P) : ∀ (vs : List P) (vi : Nat) (s
         rw [hst1]
         simp only [bind, Except.bind]
         rw [← hr]
-        exact ih (vi + 1) (seen ++ [v]) st1 init (pr ++ [v]) (by omega) inv1 (hnew' _ rfl)
+        have := ih (vi + 1) (seen ++ [v]) st1 init (pr ++ [v]) (by omega) inv1 (hnew' _ rfl)
+        simpa [List.append_assoc] using this
       | true =>
         obtain ⟨st1, init1, hst1, inv1⟩ := step_flagged isHit v0 seen st init pr inv vi hvi v hv
         rw [hst1]
         simp only [bind, Except.bind]
         rw [← hr]
-        exact ih (vi + 1) (seen ++ [v]) st1 init1 [v] (by omega) inv1 (hnew' _ rfl)
+        have := ih (vi + 1) (seen ++ [v]) st1 init1 [v] (by omega) inv1 (hnew' _ rfl)
+        simpa [List.append_assoc] using this
 
 theorem first_step (isHit : P → Bool) (v0 : P) :
     splitStep isHit {} 0 v0 false = .ok ⟨0, [(0, [v0])], []⟩ ∧ SI isHit v0 [v0] ⟨0, [(0, [v0])], []⟩ [] [v0] := by
@@ -855,6 +1152,9 @@ theorem first_step (isHit : P → Bool) (v0 : P) :
     · intro v hv _; simp [spath] at hv; subst hv; exact Or.inr rfl
     · intro v hv; simpa [spath] using hv
     · intro e he; cases he
+    · rfl
+    · simp [partsSum, chainSum]
+    · exact ⟨by simp, by intro e he; cases he⟩
 
 theorem completeSorted_mem (cs : List (Nat × List P)) (Q : List P → Prop) (h : ∀ e ∈ cs, Q e.2) : ∀ r ∈ completeSorted cs, Q r := by
   have hstep : ∀ (acc : List (Nat × List P)) (e : Nat × List P), (∀ x ∈ acc, Q x.2) → Q e.2 → ∀ x ∈ dedupStep acc e, Q x.2 := by
@@ -950,7 +1250,7 @@ theorem splitRingF_nodup (ring : List P) (isOuter : Bool) (isHit : P → Bool) (
       intro pre v suf hx hflag
       have := (hflags (v0 :: pre) v suf (by rw [hx]; rfl) hflag).1
       simpa using this
-    obtain ⟨st', hst', hnd⟩ := loop_inv isHit v0 rest 1 [v0] _ [] [v0] (by omega) inv1 hnew
+    obtain ⟨st', hst', hnd, _, _⟩ := loop_inv isHit v0 rest 1 [v0] _ [] [v0] (by omega) inv1 hnew
     have hloop : splitLoop isHit ((v0 :: rest) ++ [v0]) 0 {} = .ok st' := by
       have hsplit : (v0 :: rest) ++ [v0] = v0 :: (rest ++ [v0]) := rfl
       rw [hsplit]
@@ -966,5 +1266,72 @@ theorem splitRingF_nodup (ring : List P) (isOuter : Bool) (isHit : P → Bool) (
     refine ⟨_, rfl, ?_⟩
     have hrings := completeSorted_mem st'.complete (fun r => r.Nodup) hnd
     exact classify_Q (fun r => r.toList.Nodup) (by intro r hr; simp only [Array.toList_reverse]; exact List.nodup_reverse.2 hr) isOuter _ (by intro r hr; simpa using hrings r hr)
+
+/-! ### `splitRing` preserves the signed area -/
+
+theorem foldl_dedup_nodup : ∀ (l acc : List (Nat × List P)), ((acc ++ l).map (·.1)).Nodup → l.foldl dedupStep acc = acc ++ l
+  | [], acc, _ => by simp
+  | e :: rest, acc, h => by
+    have hnot : acc.any (fun a => a.1 == e.1) = false := by
+      rw [List.any_eq_false]
+      intro a ha
+      simp only [List.map_append, List.map_cons] at h
+      have := (List.nodup_append.1 h).2.2 a.1 (List.mem_map.2 ⟨a, ha, rfl⟩) e.1 List.mem_cons_self
+      simpa using this
+    simp only [List.foldl_cons, dedupStep, hnot, Bool.false_eq_true, if_false]
+    rw [foldl_dedup_nodup rest (acc ++ [e]) (by simpa [List.append_assoc] using h)]
+    simp [List.append_assoc]
+
+theorem completeSorted_sum (cs : List (Nat × List P)) (hk : (cs.map (·.1)).Nodup) (f : List P → Int) :
+    ((completeSorted cs).map f).sum = (cs.map (fun e => f e.2)).sum := by
+  unfold completeSorted
+  rw [foldl_dedup_nodup cs [] (by simpa using hk), List.nil_append, List.map_map]
+  exact ((List.mergeSort_perm cs _).map _).sum_eq
+
+/-- **`splitRing` cuts the ring into closed rings without repetition whose signed areas add up to the signed area of the ring** (same
+hypothesis on the flags as `splitRingF_nodup`); `classify` then only sorts them into shell parts, hole parts and points/lines, turning a
+ring round where needed -/
+theorem splitRingF_area (ring : List P) (isOuter : Bool) (isHit : P → Bool) (hne : ring ≠ [])
+    (hflags : ∀ pre v suf, ring = pre ++ v :: suf → isHit v = false → v ∉ pre ∧ v ∉ suf) :
+    ∃ rings : List (List P), splitRingF ring isOuter isHit = .ok (classify isOuter rings) ∧ (∀ r ∈ rings, r.Nodup) ∧
+      (rings.map closedSum).sum = closedSum ring := by
+  cases ring with
+  | nil => exact absurd rfl hne
+  | cons v0 rest =>
+    obtain ⟨h1, inv1⟩ := first_step isHit v0
+    have hnew : UnflaggedNew isHit [v0] rest := by
+      intro pre v suf hx hflag
+      have := (hflags (v0 :: pre) v suf (by rw [hx]; rfl) hflag).1
+      simpa using this
+    obtain ⟨st', hst', hnd, harea, hkeys⟩ := loop_inv isHit v0 rest 1 [v0] _ [] [v0] (by omega) inv1 hnew
+    have hloop : splitLoop isHit ((v0 :: rest) ++ [v0]) 0 {} = .ok st' := by
+      have hsplit : (v0 :: rest) ++ [v0] = v0 :: (rest ++ [v0]) := rfl
+      rw [hsplit]
+      cases hr : rest ++ [v0] with
+      | nil => simp at hr
+      | cons a t =>
+        unfold splitLoop
+        rw [h1]
+        simp only [bind, Except.bind]
+        rw [← hr]; exact hst'
+    refine ⟨completeSorted st'.complete, ?_, completeSorted_mem st'.complete (fun r => r.Nodup) hnd, ?_⟩
+    · unfold splitRingF
+      simp only [hloop, bind, Except.bind, pure, Except.pure]
+    · rw [completeSorted_sum st'.complete hkeys closedSum, harea]
+      simp [closedSum]
+
+/-- the shoelace sum around a ring of at least three vertices is `area2`, twice the signed area the model (and the code) computes -/
+theorem closedSum_eq_area2 (r : List P) (h : 3 ≤ r.length) : closedSum r = area2 r.toArray := by
+  rw [area2_eq]
+  cases r with
+  | nil => simp at h
+  | cons o rest =>
+    simp only [List.toList_toArray]
+    rw [area2L_shoelace o rest h]
+    unfold closedSum
+    simp only
+    rw [chainSum_snoc cross0 o rest o]
+    simp only [chainSum]
+    ring
 
 end Texel
